@@ -242,12 +242,7 @@ def _rx_harness(L):
 
 def _rx_replay(h, vals):
     R, ll, got, patches = build_real(h, vals)
-    calls = []
-    lt = R.location_table
-    for name in ("new_shb_packet", "new_tsb_packet", "new_gbc_packet", "new_gac_packet", "new_guc_packet",
-                 "new_ls_request_packet", "new_ls_reply_packet"):
-        orig = getattr(lt, name)
-        setattr(lt, name, lambda *a, _o=orig, _n=name, **k: (calls.append(_n), _o(*a, **k))[1])
+    calls = R.location_table.calls
     err = None
     with patches:
         try:
